@@ -61,15 +61,42 @@ void LogAttributesContainer::addAttribute( const string& attr_name,
 string LogAttributesContainer::getAttribute( const string& attr_name) const
 {
 
+   string  attr_value;
+
+
+   findAttribute( attr_name, attr_value);
+
+   return attr_value;
+} // LogAttributesContainer::getAttribute
+
+
+
+/// Searches for the given attribute and returns its value.<br>
+/// Unlike getAttribute(), this allows to distinguish between an attribute
+/// with an empty value and an attribute that does not exist.<br>
+/// If multiple atributes with the same name exist, the value of the last
+/// attribute is returned.
+///
+/// @param[in]   attr_name   The name of the attribute to return the value of.
+/// @param[out]  attr_value  Returns the value of the attribute, if found.
+/// @return  \c true if an attribute with the given name was found.
+/// @since  1.47.0, 29.09.2026
+bool LogAttributesContainer::findAttribute( const string& attr_name,
+   string& attr_value) const
+{
+
    for (auto attr_rev_iter = mAttributes.rbegin();
         attr_rev_iter != mAttributes.rend(); ++attr_rev_iter)
    {
       if (std::get< 0>( *attr_rev_iter) == attr_name)
-         return std::get< 1>( *attr_rev_iter);
+      {
+         attr_value = std::get< 1>( *attr_rev_iter);
+         return true;
+      } // end if
    } // end for
 
-   return string();
-} // LogAttributesContainer::getAttribute
+   return false;
+} // LogAttributesContainer::findAttribute
 
 
 
